@@ -505,7 +505,7 @@ func (s *IndexedState) rem(ctx *Context, id string) (bool, error) {
 
 func (s *IndexedState) deleteDependencies(ctx *Context, id string) error {
 	Log(DEBUG, ctx, "IndexedState.deleteDependencies", "location", s.Name, "id", id)
-	srs, err := s.search(ctx, Map{KW_DeleteWith: []string{id}})
+	srs, err := s.search(ctx, Map{KW_DeleteWith: []string{id}}, true)
 	if nil != err {
 		return err
 	}
@@ -600,7 +600,21 @@ func (s *IndexedState) get(ctx *Context, id string, getLock bool) (Map, error) {
 		return nil, NewNotFoundError("%s", id)
 	}
 
-	expired, err := s.expire(ctx, id, fact, 0)
+	expired, err := checkExpiration(ctx, fact, 0)
+	if err == nil && expired {
+		// Removing the fact needs the write lock -- and another
+		// look, since the fact might have been replaced or
+		// removed in the meantime.
+		if getLock {
+			s.slock(ctx, false)
+		}
+		if fact, found = s.IdToFact[id]; found {
+			_, err = s.expire(ctx, id, fact, 0)
+		}
+		if getLock {
+			s.sunlock(ctx, false)
+		}
+	}
 	if err != nil {
 		Log(ERROR, ctx, "IndexedState.Get", "error", err, "when", "expiring")
 		return nil, err
@@ -659,13 +673,23 @@ func (s *IndexedState) Search(ctx *Context, pattern Map) (*SearchResults, error)
 	defer timer.Stop()
 
 	s.slock(ctx, true)
-	srs, err := s.search(ctx, pattern)
+	srs, err := s.search(ctx, pattern, false)
 	s.sunlock(ctx, true)
+
+	if err == nil && 0 < srs.Expired {
+		// Removing what has expired needs the write lock.
+		s.slock(ctx, false)
+		srs, err = s.search(ctx, pattern, true)
+		s.sunlock(ctx, false)
+	}
 
 	return srs, err
 }
 
-func (s *IndexedState) search(ctx *Context, pattern Map) (*SearchResults, error) {
+// search does the work for Search.  Assumes the caller has a lock: the
+// write lock if 'purge' asks for expired facts to be removed (otherwise
+// they are only skipped and counted).
+func (s *IndexedState) search(ctx *Context, pattern Map, purge bool) (*SearchResults, error) {
 	Log(DEBUG, ctx, "IndexedState.search", "pattern", pattern)
 	then := Now()
 
@@ -685,7 +709,12 @@ func (s *IndexedState) search(ctx *Context, pattern Map) (*SearchResults, error)
 			continue
 		}
 
-		done, err := s.expire(ctx, id, fact, now)
+		var done bool
+		if purge {
+			done, err = s.expire(ctx, id, fact, now)
+		} else {
+			done, err = checkExpiration(ctx, fact, now)
+		}
 		if err != nil {
 			Log(ERROR, ctx, "IndexedState.search", "error", err, "when", "expiring")
 		}
@@ -741,17 +770,27 @@ func (s *IndexedState) FindRules(ctx *Context, event Map) (map[string]Map, error
 
 func (s *IndexedState) doFindRules(ctx *Context, event Map) (map[string]Map, error) {
 	s.slock(ctx, true)
-	defer s.sunlock(ctx, true)
-	return s.findRules(ctx, event)
+	rules, expired, err := s.findRules(ctx, event, false)
+	s.sunlock(ctx, true)
+
+	if err == nil && expired {
+		// Removing what has expired needs the write lock.
+		s.slock(ctx, false)
+		rules, _, err = s.findRules(ctx, event, true)
+		s.sunlock(ctx, false)
+	}
+	return rules, err
 }
 
-// findRules does the work for doFindRules.  Assumes the caller has the lock.
-func (s *IndexedState) findRules(ctx *Context, event Map) (map[string]Map, error) {
+// findRules does the work for doFindRules.  Assumes the caller has a
+// lock: the write lock if 'purge' asks for expired rules to be removed
+// (otherwise they are only skipped, and reported by the second value).
+func (s *IndexedState) findRules(ctx *Context, event Map, purge bool) (map[string]Map, bool, error) {
 	acc := make(map[string]Map)
 	ss, err := s.RuleIndex.SearchPatternsMap(ctx, map[string]interface{}(event))
 	if err != nil {
 		Log(ERROR, ctx, "IndexedState.FindRules", "error", err)
-		return nil, err
+		return nil, false, err
 	}
 	ids := ss.Array()
 	now := NowSecs()
@@ -761,7 +800,12 @@ func (s *IndexedState) findRules(ctx *Context, event Map) (map[string]Map, error
 		rule, ok := s.IdToFact[id]
 		Log(DEBUG, ctx, "IndexedState.FindRules", "rule", rule, "ruleId", id)
 
-		expired, err := s.expire(ctx, id, rule, now)
+		var expired bool
+		if purge {
+			expired, err = s.expire(ctx, id, rule, now)
+		} else {
+			expired, err = checkExpiration(ctx, rule, now)
+		}
 		if err != nil {
 			Log(ERROR, ctx, "IndexedState.FindRules", "error", err, "when", "expiring")
 		}
@@ -781,14 +825,14 @@ func (s *IndexedState) findRules(ctx *Context, event Map) (map[string]Map, error
 			err = fmt.Errorf("lost rule with id %s", id)
 			Log(ERROR, ctx, "IndexedState.FindRules", "error", err, "id", id)
 			// Should we totally fail?
-			return nil, err
+			return nil, false, err
 		}
 
 		body, err := ExtractRule(ctx, rule, true)
 		if err != nil {
 			Log(ERROR, ctx, "IndexedState.FindRules", "error", err)
 			// Should we totally fail?
-			return nil, err
+			return nil, false, err
 		}
 
 		// The following doesn't work, but it doesn't hurt.
@@ -800,7 +844,7 @@ func (s *IndexedState) findRules(ctx *Context, event Map) (map[string]Map, error
 		acc[id] = body
 	}
 	Log(DEBUG, ctx, "IndexedState.FindRules", "rules", acc)
-	return acc, nil
+	return acc, purged, nil
 }
 
 func (s *IndexedState) FindCachedRules(ctx *Context, event Map) (map[string]*Rule, error) {
@@ -816,7 +860,7 @@ func (s *IndexedState) FindCachedRules(ctx *Context, event Map) (map[string]*Rul
 	s.slock(ctx, false)
 	defer s.sunlock(ctx, false)
 
-	rules, err := s.findRules(ctx, event)
+	rules, _, err := s.findRules(ctx, event, true)
 	if err != nil {
 		return nil, err
 	}
